@@ -211,6 +211,16 @@ func c09Long(ctx *core.Ctx, k int) {
 				}
 			}
 		}
+		// the last token of the input with and without anything behind it
+		for _, w := range []string{"-3d", "-5th", "-2024-01-01", "-3", "-x", "1e", "a.", "x-", "w*", "q?", "\"p q\"", "/re/", "'s'", "5", "1.5", "NOT", "a~", "a^", "a~2"} {
+			for _, pre := range [][]string{{}, {"a"}, {"a", "AND"}, {"f", ":"}, {"(", "a"}} {
+				base := strings.Join(append(append([]string{}, pre...), w), " ")
+				for _, tail := range []string{" ", "\n", "\t", "\r\n", "  "} {
+					v := base + tail
+					ctx.Case(v, func() { c09Same(ctx, "whitespace", base, v, true) })
+				}
+			}
+		}
 		for _, u := range c09Units {
 			for _, j := range joins {
 				for _, n := range lens {
